@@ -472,6 +472,10 @@ impl<'r> Gen<'r> {
                     format!("{}({})", if self.rng.chance(1, 2) { "any" } else { "all" }, self.expr(Kind::Bool, n, d))
                 }
                 77..=84 => self.call_user(k, lanes, d),
+                85..=88 => {
+                    self.feature("isnan-isinf");
+                    format!("{}({})", if self.rng.chance(1, 2) { "isnan" } else { "isinf" }, self.expr(Kind::Float, lanes, d))
+                }
                 _ => self.leaf(k, lanes),
             },
             _ => match choice {
@@ -615,7 +619,7 @@ impl<'r> Gen<'r> {
         }
         self.feature("intrinsic");
         if k.is_float() {
-            let pick = self.rng.below(16);
+            let pick = self.rng.below(19);
             let a = self.expr(k, lanes, d);
             match pick {
                 0 => format!("abs({})", a),
@@ -636,12 +640,30 @@ impl<'r> Gen<'r> {
                 12 if k == Kind::Float => format!("asfloat(asuint({}))", a),
                 13 if lanes == 3 && k == Kind::Float => format!("cross({}, {})", a, self.expr(k, 3, d)),
                 14 => format!("clamp({}, {}, {})", a, self.literal_splat(k, lanes, "0.0"), self.literal_splat(k, lanes, "4.0")),
-                _ => format!("abs({})", a),
+                _ => {
+                    // second table: transcendental and selection intrinsics (float and half only)
+                    if k == Kind::Double {
+                        return format!("abs({})", a);
+                    }
+                    let one = self.literal_splat(k, lanes, "1.0");
+                    match self.rng.below(11) {
+                        0 => format!("rsqrt(abs({}) + {})", a, one),
+                        1 => format!("rcp({} + {})", a, self.literal_splat(k, lanes, "16.0")),
+                        2 => format!("exp2({})", a),
+                        3 => format!("log2(abs({}) + {})", a, one),
+                        4 => format!("sin({})", a),
+                        5 => format!("cos({})", a),
+                        6 => format!("pow(abs({}), {})", a, self.expr(k, lanes, d)),
+                        7 => format!("fmod({}, {})", a, self.expr(k, lanes, d)),
+                        8 => format!("select({}, {}, {})", self.expr(Kind::Bool, lanes, d), a, self.expr(k, lanes, d)),
+                        _ => format!("abs({})", a),
+                    }
+                }
             }
         } else if k == Kind::Bool {
             self.leaf(k, lanes)
         } else {
-            let pick = self.rng.below(9);
+            let pick = self.rng.below(10);
             let a = self.expr(k, lanes, d);
             match pick {
                 0 => format!("min({}, {})", a, self.expr(k, lanes, d)),
@@ -652,6 +674,10 @@ impl<'r> Gen<'r> {
                 5 if k == Kind::UInt => format!("firstbitlow({})", a),
                 6 if k == Kind::UInt => format!("asuint(asfloat({} & 0x7F7FFFFFu))", a),
                 7 if k == Kind::Int => format!("asint(asfloat(({}) & 0x7F7FFFFF))", a),
+                8 if k == Kind::Int => {
+                    let fk = if self.cfg.allow_half && self.rng.chance(1, 3) { Kind::Half } else { Kind::Float };
+                    format!("sign({})", self.expr(fk, lanes, d))
+                }
                 _ => format!("min({}, {})", a, self.expr(k, lanes, d)),
             }
         }
